@@ -59,13 +59,16 @@ pub fn builtin_slice(
 }
 
 #[builtin]
-pub fn builtin_map(func: NativeFn!((Val) -> Val), arr: IndexableVal) -> ArrValue {
+pub fn builtin_map(func: NativeFn!((Thunk<Val>) -> Val), arr: IndexableVal) -> ArrValue {
 	let arr = arr.to_array();
 	arr.map(func)
 }
 
 #[builtin]
-pub fn builtin_map_with_index(func: NativeFn!((u32, Val) -> Val), arr: IndexableVal) -> ArrValue {
+pub fn builtin_map_with_index(
+	func: NativeFn!((u32, Thunk<Val>) -> Val),
+	arr: IndexableVal,
+) -> ArrValue {
 	let arr = arr.to_array();
 	arr.map_with_index(func)
 }
@@ -95,7 +98,7 @@ pub fn builtin_map_with_key(
 
 #[builtin]
 pub fn builtin_flatmap(
-	func: NativeFn!((Either![String, Val]) -> Val),
+	func: NativeFn!((Either![String, Thunk<Val>]) -> Val),
 	arr: IndexableVal,
 ) -> Result<IndexableVal> {
 	use std::fmt::Write;
@@ -112,20 +115,16 @@ pub fn builtin_flatmap(
 			Ok(IndexableVal::Str(out.into()))
 		}
 		IndexableVal::Arr(a) => {
+			// Neither the input elements nor the elements of the results are evaluated here
 			let mut out = Vec::new();
-			for el in a.iter() {
-				let el = el?;
+			for el in a.iter_lazy() {
 				match func.call(Either2::B(el))? {
-					Val::Arr(o) => {
-						for oe in o.iter() {
-							out.push(oe?);
-						}
-					}
+					Val::Arr(o) => out.extend(o.iter_lazy()),
 					Val::Null => {}
 					_ => bail!("in std.join all items should be arrays"),
 				}
 			}
-			Ok(IndexableVal::Arr(out.into()))
+			Ok(IndexableVal::Arr(ArrValue::lazy(out)))
 		}
 	}
 }
@@ -140,7 +139,7 @@ pub fn builtin_filter(func: FilterFunc, arr: ArrValue) -> Result<ArrValue> {
 #[builtin]
 pub fn builtin_filter_map(
 	filter_func: FilterFunc,
-	map_func: NativeFn!((Val) -> Val),
+	map_func: NativeFn!((Thunk<Val>) -> Val),
 	arr: ArrValue,
 ) -> Result<ArrValue> {
 	Ok(arr.filter(filter_func)?.map(map_func))
@@ -148,15 +147,15 @@ pub fn builtin_filter_map(
 
 #[builtin]
 pub fn builtin_foldl(
-	func: NativeFn!((Val, Either![Val, char]) -> Val),
+	func: NativeFn!((Val, Either![Thunk<Val>, char]) -> Val),
 	arr: Either![ArrValue, IStr],
 	init: Val,
 ) -> Result<Val> {
 	let mut acc = init;
 	match arr {
 		Either2::A(arr) => {
-			for i in arr.iter() {
-				acc = func.call(acc, Either2::A(i?))?;
+			for i in arr.iter_lazy() {
+				acc = func.call(acc, Either2::A(i))?;
 			}
 		}
 		Either2::B(arr) => {
@@ -170,15 +169,15 @@ pub fn builtin_foldl(
 
 #[builtin]
 pub fn builtin_foldr(
-	func: NativeFn!((Either![Val, char], Val) -> Val),
+	func: NativeFn!((Either![Thunk<Val>, char], Val) -> Val),
 	arr: Either![ArrValue, IStr],
 	init: Val,
 ) -> Result<Val> {
 	let mut acc = init;
 	match arr {
 		Either2::A(arr) => {
-			for i in arr.iter().rev() {
-				acc = func.call(Either2::A(i?), acc)?;
+			for i in arr.iter_lazy().rev() {
+				acc = func.call(Either2::A(i), acc)?;
 			}
 		}
 		Either2::B(arr) => {
